@@ -99,7 +99,7 @@ PROG_KINDS = {
     "C20": [("static.sourcemap", None), ("modifier", None)],
 }
 TEXT_KINDS = {
-    "C13": ["al.", "x.AL"],
+    "C13": ["al.", "x.AL", "x.GF"],
     "C16": ["bt.", "gf.", "fs.", "dt.others", "x.BT", "x.GF"],
     "C17": ["dt.nondeterministic", "dt.alone", "dt.sequence", "dt.exit", "x.DT"],
     "C18": ["es.", "x.ES"],
